@@ -5,8 +5,18 @@
    evaluators versus Coq's exact evaluation of these definitions). *)
 From Coq Require Import Reals List Arith QArith.
 From Coquelicot Require Import Coquelicot.
-From PV Require Import Assembly Expr ExprProofs ExprEval Derivs DerivsProofs.
+From Coq Require Import Lia.
+From PV Require Import Assembly Expr ExprProofs ExprEval Derivs DerivsProofs Gen.DerivsGen.
 Open Scope R_scope.
+
+(* layout of the getters as extracted from the current source (regenerated every run): which entry receives the
+   derivative of what with respect to what; the row index of get_grad_jacobian_eqn as coded is k*nS + i for all sizes *)
+Theorem C03_layout_facts :
+  translator_ok = true /\ jac_is_sympy_jacobian_of_states = true /\ grad_layout_ok = true /\ diffjac_layout_ok = true /\
+  gradjac_entry_ok = true /\ tF_loop_ok = true /\ tmean_loop_ok = true /\ tvar_loop_ok = true.
+Proof. vm_compute. repeat split. Qed.
+Theorem C03_gradjac_row : forall k i j nS nP : nat, gj_row k i j nS nP = (k * nS + i)%nat.
+Proof. intros. unfold gj_row. lia. Qed.
 
 (* the differentiator is correct for every expression of the grammar at every point where it is defined *)
 Theorem C03_D_correct : forall x r e, ok r e ->
@@ -60,6 +70,11 @@ Theorem C03_jac_value : forall o, truthful o -> forall (m : emodel) r i j q0 q,
 Proof. intros o Ho m r i j q0 q H0 H.
   destruct (evO_sound o Ho r _ _ H0) as [Hok _]. destruct (evO_sound o Ho r _ _ H) as [_ E].
   rewrite <- E. apply jac_correct, Hok. Qed.
+
+(* the entry the CODE writes (row index as extracted) is the state-derivative of the parameter gradient *)
+Theorem C03_grad_jac_code : forall (m : emodel) r k i j nP, (i < nS m)%nat -> ok r (eode m i) ->
+  is_derive (fun v => ev (upd r j v) (grad m i k)) (r j) (ev r (grad_jac m (gj_row k i j (nS m) nP) j)).
+Proof. intros m r k i j nP Hi H. rewrite C03_gradjac_row. apply grad_jac_correct; assumption. Qed.
 
 Print Assumptions C03_D_correct.
 Print Assumptions C03_jac_value.
